@@ -17,8 +17,7 @@
       witness: the evaporator set requested before the condenser set is 1000 times the one
       requested after it).
 -/
-import OPModel.Model.HeatPump
-import OPModel.Proofs.CascadeLemmas
+import OPModel.Proofs.HeatPumpLemmas
 import OPModel.Drive.C18
 import Mathlib.Tactic.FieldSimp
 import Mathlib.Tactic.Ring
@@ -30,9 +29,6 @@ open OP OP.HP
 /-- **First law** on the reported duties. -/
 theorem first_law (c : Cycle) (Q : Rat) : Q = QEvap c Q + work c Q := by
   unfold work; ring
-
-theorem qEvap_of_le (c : Cycle) (h : c.h3 ≤ c.h0) : qEvap c = (c.h0 - c.h3) / 1000 := by
-  unfold qEvap; rw [max_eq_left (by linarith)]
 
 /-- **Positive work.** -/
 theorem work_pos (c : Cycle) (Q : Rat) (hQ : 0 < Q) (h30 : c.h3 ≤ c.h0) (h01 : c.h0 < c.h1) : 0 < work c Q := by
@@ -52,33 +48,6 @@ theorem cop_relation (c : Cycle) (h30 : c.h3 ≤ c.h0) (h01 : c.h0 < c.h1) : cop
   have : c.h1 - c.h0 ≠ 0 := by intro h; linarith
   field_simp
   ring
-
-theorem steps_sum_desc : ∀ (l : List Rat), l.Pairwise (· ≥ ·) → ∀ a z, l.head? = some a → l.getLast? = some z →
-    (steps l).sum = a - z
-  | [], _, a, z, h, _ => by simp at h
-  | [x], _, a, z, ha, hz => by
-    simp only [List.head?_cons, Option.some.injEq] at ha
-    simp only [List.getLast?_singleton, Option.some.injEq] at hz
-    subst ha; subst hz; simp [steps]
-  | x :: y :: rest, hp, a, z, ha, hz => by
-    simp only [List.head?_cons, Option.some.injEq] at ha
-    subst ha
-    have hp' : (y :: rest).Pairwise (· ≥ ·) := (List.pairwise_cons.mp hp).2
-    have hxy : x ≥ y := (List.pairwise_cons.mp hp).1 y (by simp)
-    have hz' : (y :: rest).getLast? = some z := by simpa [List.getLast?_cons_cons] using hz
-    have ih := steps_sum_desc (y :: rest) hp' y z rfl hz'
-    simp only [steps, List.sum_cons, ih]
-    rw [rabs_eq_abs, abs_of_nonneg (by linarith)]
-    ring
-
-theorem steps_nonneg : ∀ (l : List Rat), ∀ d ∈ steps l, 0 ≤ d
-  | [], d, h => by simp [steps] at h
-  | [_], d, h => by simp [steps] at h
-  | x :: y :: rest, d, h => by
-    simp only [steps, List.mem_cons] at h
-    rcases h with rfl | h
-    · rw [rabs_eq_abs]; exact abs_nonneg _
-    · exact steps_nonneg (y :: rest) d h
 
 /-- **The streams of a (falling) enthalpy profile carry exactly the exchanger's duty**, none negative.
     (A rising profile is the same statement read backwards.) -/
